@@ -219,6 +219,23 @@ func runSchedule(carrier, kind string, steps []Step, postOps bool, copt ...carri
 			res.StallA = fmt.Sprintf("after the client closed its side and drained, and the handler was told to return: client actors finished=%v, handler finished=%v within %v\n%s", clientDone, hd, schedBound, goroutineDump())
 		}
 	}
+	// census A: the handler has returned and the client has received its final status (it read until an
+	// error): that alone releases everything the call held - a caller is not obliged to cancel its context
+	// as well
+	if res.StallA == "" && !r.wasCancelled() && r.clientSawFinal() {
+		deadline := time.Now().Add(3 * time.Second)
+		for {
+			n, dump := libraryGoroutines()
+			if n <= before {
+				break
+			}
+			if time.Now().After(deadline) {
+				res.Leak = fmt.Sprintf("%d library goroutine(s) still alive 3s after the handler returned and the client received the final status, context not cancelled (baseline %d):\n%s", n, before, dump)
+				break
+			}
+			time.Sleep(200 * time.Microsecond)
+		}
+	}
 	// phase B: context done => everything must come back
 	r.mu.Lock()
 	r.cancelled = true
@@ -259,7 +276,7 @@ func runSchedule(carrier, kind string, steps []Step, postOps bool, copt ...carri
 	}
 	car.Close()
 	// census
-	if res.StallB == "" && res.StallPost == "" {
+	if res.StallB == "" && res.StallPost == "" && res.Leak == "" {
 		deadline := time.Now().Add(5 * time.Second)
 		for {
 			n, dump := libraryGoroutines()
@@ -615,6 +632,18 @@ func genStepsFor(t *rapid.T, kind string, allowCancel bool, maxSteps int, second
 func genC05(t *rapid.T) c05Case {
 	c := c05Case{Carrier: rapid.SampledFrom([]string{cInproc, cInproc, cInproc, cHTTP, cHTTPMux, cHTTPPer}).Draw(t, "carrier"), Kind: rapid.SampledFrom([]string{kClientStream, kServerStream, kBidi, kBidi}).Draw(t, "kind")}
 	c.Steps = genStepsFor(t, c.Kind, true, 14, c.Carrier == cInproc && rapid.Bool().Draw(t, "h2"))
+	if c.Kind == kClientStream && rapid.IntRange(0, 5).Draw(t, "overrespond") == 0 {
+		// a handler that answers a single-response method three to five times (drawn deliberately: the
+		// random schedules rarely line up that many sends), then whatever else was drawn
+		var pre []Step
+		if rapid.Bool().Draw(t, "overrespond-close") {
+			pre = append(pre, Step{Actor: "cs", Op: "close"})
+		}
+		for i, n := 0, rapid.IntRange(3, 5).Draw(t, "overrespond-n"); i < n; i++ {
+			pre = append(pre, Step{Actor: "h", Op: "send", Size: 5})
+		}
+		c.Steps = append(pre, c.Steps...)
+	}
 	c.BadReplyHeader = isHTTP(c.Carrier) && rapid.IntRange(0, 9).Draw(t, "badhdr") == 0
 	if isHTTP(c.Carrier) && !c.BadReplyHeader && rapid.IntRange(0, 19).Draw(t, "reject") == 0 {
 		c.Reject = rapid.SampledFrom([]int{401, 403, 404, 415, 502, 503}).Draw(t, "rejectstatus")
@@ -626,7 +655,7 @@ func init() { registerReplay("C05", propC05) }
 
 const c05Rule = "rapid-generated schedules of <=14 steps over three actors (client sender: SendMsg small/medium, CloseSend also repeated; client receiver: RecvMsg, Header, Trailer; handler: RecvMsg, SendMsg, SetHeader, SendHeader, SetTrailer, return ok/err) plus cancellation, on the in-process channel, httpgrpc.Server and HandleServices for client-, server- and bidi-streaming; each step is released when the previous one has returned or parked (goroutine state from runtime.Stack); " +
 	"then phase A (client closes and drains, handler returns), phase B (context cancelled), operations after completion, goroutine census; invariants: no panic; everything finishes in phase A (10 s, stable park = deadlock) and certainly in phase B; later operations return; without cancellation sends return nil or io.EOF (EOF only once the handler returned), receives are an intact prefix of what the handler sent followed by the handler's status, stable across repeated calls; no library goroutine survives; " +
-	"also generated since the seeded rounds: a second client goroutine calling CloseSend, a second handler goroutine (in-process) incl. SendHeader after the handler returned, sends above 256 KiB, undecodable reply headers and HTTP-level rejection (401/403/404/415/502/503 from a middleware: only termination, panics and leaks judged), senders-only drain stage, a second receiving goroutine calling Header() concurrently with RecvMsg, the per-method HTTP server form; " +
+	"also generated since the seeded rounds: a second client goroutine calling CloseSend, a second handler goroutine (in-process) incl. SendHeader after the handler returned, sends above 256 KiB, undecodable reply headers and HTTP-level rejection (401/403/404/415/502/503 from a middleware: only termination, panics and leaks judged), senders-only drain stage, a second receiving goroutine calling Header() concurrently with RecvMsg, the per-method HTTP server form, handlers answering a single-response method 3..5 times, and a goroutine census taken before any cancellation once the client has received the final status; " +
 	"non-trivial = a scheduled client operation was pending or issued after the handler returned; distinct by case hash"
 
 func TestC05(t *testing.T) {
